@@ -9,24 +9,24 @@ Definition lis (e : option entry) : list htlc := match e with Some en => listene
 
 (* one lifecycle step: the set of held HTLCs is unchanged, or every one of them is answered with the same response *)
 Definition kept_or_answered (e e' : option entry) (out : list output) : Prop :=
-  lis e' = lis e \/ exists en r, e = Some en /\ e' = None /\ resps out = map (fun h => OResp (hid h) r) (listeners en).
+  (lis e' = lis e /\ resps out = []) \/ exists en r, e = Some en /\ e' = None /\ resps out = map (fun h => OResp (hid h) r) (listeners en).
 
 Lemma do_resolve_koa e r p qs cn na :
   kept_or_answered e (a_entry (do_resolve e r p qs [] cn na)) (a_out (do_resolve e r p qs [] cn na)).
 Proof.
   unfold do_resolve. destruct e as [en|]; cbn [a_entry a_out].
   - right. exists en, r. rewrite app_nil_r, resps_resolve_outs. auto.
-  - left. reflexivity.
+  - left. split; reflexivity.
 Qed.
 
 Lemma select_poll_koa c li base hgt tnow d e sel na :
   let a := select_poll c li base hgt tnow d e sel na in kept_or_answered e (a_entry a) (a_out a).
 Proof.
-  cbv zeta. unfold select_poll. destruct e as [en|]; [|left; reflexivity].
+  cbv zeta. unfold select_poll. destruct e as [en|]; [|left; split; reflexivity].
   assert (R : forall rq fq r p, kept_or_answered (Some en) (a_entry (do_resolve (Some (set_queues en rq fq)) r p [] [] [] na))
                                  (a_out (do_resolve (Some (set_queues en rq fq)) r p [] [] [] na))).
   { intros rq fq r p. right. exists en, r. unfold do_resolve. cbn [a_entry a_out]. rewrite app_nil_r, resps_resolve_outs. auto. }
-  destruct (rdy_q en), (fail_q en) as [r|]; try destruct sel; try apply R; left; unfold go_pay, stay; cbn; reflexivity.
+  destruct (rdy_q en), (fail_q en) as [r|]; try destruct sel; try apply R; left; unfold go_pay, stay; cbn; split; reflexivity.
 Qed.
 
 Lemma enter_select_koa c li base hgt tnow d e sel na :
@@ -38,7 +38,7 @@ Lemma lc_deliver_koa c li base hgt tnow p cid y sel e na a :
 Proof.
   rewrite lc_deliver_shape. destruct (lc_shape c li base tnow p cid y) as [[p' new out cancel|r p' new cancel|d]|] eqn:E; cbn [option_map adv_of]; try discriminate;
     intros H; inversion H; subst; clear H.
-  - left. reflexivity.
+  - left. split; [reflexivity|]. cbn [a_out]. eapply lc_shape_keep_out; eauto.
   - apply do_resolve_koa.
   - apply enter_select_koa.
 Qed.
@@ -52,13 +52,13 @@ Qed.
 
 Lemma fire_timers_koa : forall l e t l' e' o', fire_timers l e t = (l', e', o') -> kept_or_answered e e' o'.
 Proof.
-  induction l as [|x r IH]; intros e t l' e' o' H; unfold fire_timers in H; fold fire_timers in H; [inversion H; left; reflexivity|].
+  induction l as [|x r IH]; intros e t l' e' o' H; unfold fire_timers in H; fold fire_timers in H; [inversion H; left; split; reflexivity|].
   destruct (l_pc x);
     try (destruct (fire_timers r e t) as [[r' e1] o1] eqn:E2; inversion H; subst; exact (IH _ _ _ _ _ E2)).
   destruct (deadline <=? t).
   - destruct e as [en|]; destruct (fire_timers r None t) as [[r' e1] o1] eqn:E2; inversion H; subst; destruct (fire_timers_none _ _ _ _ _ E2) as (-> & Hr).
     + right. exists en, r_tramp_fail. split; [reflexivity|]. split; [reflexivity|]. rewrite resps_app, resps_resolve_outs, Hr, app_nil_r. reflexivity.
-    + left. reflexivity.
+    + left. split; [reflexivity|]. cbn. exact Hr.
   - destruct (fire_timers r e t) as [[r' e1] o1] eqn:E2; inversion H; subst; exact (IH _ _ _ _ _ E2).
 Qed.
 
@@ -66,7 +66,7 @@ Lemma apply_adv_entry s i a : entry_ (pl (fst (apply_adv s i a))) = a_entry a.
 Proof. reflexivity. Qed.
 
 Lemma koa_resps e e' o o' : resps o' = resps o -> kept_or_answered e e' o -> kept_or_answered e e' o'.
-Proof. intros H [K|(en & r & A & B0 & C0)]; [left; exact K|right; exists en, r; rewrite H; auto]. Qed.
+Proof. intros H [(K & K2)|(en & r & A & B0 & C0)]; [left; split; [exact K|rewrite H; exact K2]|right; exists en, r; rewrite H; auto]. Qed.
 
 (* one step of the system *)
 Lemma step_koa c s ev :
@@ -78,20 +78,20 @@ Lemma step_koa c s ev :
 Proof.
   destruct ev as [h|sel|cid f|cid sel|pid st|cid|cid o|dt|h|]; cbn [step]; try exact I.
   - destruct (entry_ (pl s)) as [e|]; cbn [fst pl entry_ lis]; rewrite e_handle_listeners'; reflexivity.
-  - destruct (find_select 0 (lcs (pl s))) as [[[i d] li]|]; [|left; reflexivity].
+  - destruct (find_select 0 (lcs (pl s))) as [[[i d] li]|]; [|left; split; reflexivity].
     rewrite apply_adv_entry. eapply koa_resps; [apply apply_adv_resps|]. apply select_poll_koa.
-  - destruct (nth_error (calls s) cid) as [cl|]; [|left; reflexivity]. destruct (c_st cl); try (left; reflexivity).
-    destruct (node_exec (nd s) (c_rpc cl) f). left. reflexivity.
-  - destruct (nth_error (calls s) cid) as [cl|]; [|left; reflexivity]. destruct (c_st cl); try (left; reflexivity).
-    destruct (find_owner c 0 (lcs (pl s)) cid y sel (entry_ (pl s)) (length (calls s)) (height s) (now s) (next_att (pl s))) as [[i a]|] eqn:Hf; [|left; reflexivity].
+  - destruct (nth_error (calls s) cid) as [cl|]; [|left; split; reflexivity]. destruct (c_st cl); try (left; split; reflexivity).
+    destruct (node_exec (nd s) (c_rpc cl) f). left. split; reflexivity.
+  - destruct (nth_error (calls s) cid) as [cl|]; [|left; split; reflexivity]. destruct (c_st cl); try (left; split; reflexivity).
+    destruct (find_owner c 0 (lcs (pl s)) cid y sel (entry_ (pl s)) (length (calls s)) (height s) (now s) (next_att (pl s))) as [[i a]|] eqn:Hf; [|left; split; reflexivity].
     destruct (find_owner_spec _ _ _ _ _ _ _ _ _ _ _ _ _ Hf) as (x & _ & _ & Hdl).
     rewrite apply_adv_entry. eapply koa_resps; [apply apply_adv_resps|]. exact (lc_deliver_koa _ _ _ _ _ _ _ _ _ _ _ _ Hdl).
-  - destruct (nth_error (parts (nd s)) pid) as [[]|], st; left; reflexivity.
-  - destruct (nth_error (calls s) cid) as [[q st]|]; [|left; reflexivity]. destruct q; try (left; reflexivity). destruct st; left; reflexivity.
-  - destruct (nth_error (calls s) cid) as [[q st]|]; [|left; reflexivity]. destruct q; try (left; reflexivity). destruct st; left; reflexivity.
+  - destruct (nth_error (parts (nd s)) pid) as [[]|], st; left; split; reflexivity.
+  - destruct (nth_error (calls s) cid) as [[q st]|]; [|left; split; reflexivity]. destruct q; try (left; split; reflexivity). destruct st; left; split; reflexivity.
+  - destruct (nth_error (calls s) cid) as [[q st]|]; [|left; split; reflexivity]. destruct q; try (left; split; reflexivity). destruct st; left; split; reflexivity.
   - destruct (fire_timers (lcs (pl s)) (entry_ (pl s)) (now s + dt)) as [[l' e'] o'] eqn:Hf. cbn [fst snd pl entry_].
     exact (fire_timers_koa _ _ _ _ _ _ Hf).
-  - left. reflexivity.
+  - left. split; reflexivity.
 Qed.
 
 Definition answered_in (x : N) (os : list (list output)) : Prop := exists o r, In o os /\ In (OResp x r) o.
@@ -104,7 +104,7 @@ Proof.
   destruct ev as [h1|sel|cid f|cid sel|pid st|cid|cid o|dt|h1|];
     try (right; right; reflexivity);
     try (destruct Hh as [Hh|Hh]; [|discriminate];
-         destruct Hk as [Hk|(en & r & He & _ & Hr)];
+         destruct Hk as [(Hk & _)|(en & r & He & _ & Hr)];
          [left; rewrite Hk; exact Hh|
           right; left; exists r; rewrite He in Hh; cbn [lis] in Hh;
           assert (Hin : In (OResp (hid h) r) (resps (snd (step c s _)))) by (rewrite Hr; apply in_map_iff; exists h; auto);
@@ -132,4 +132,69 @@ Proof.
     + apply Go. left. exact A.
     + destruct (run c s1 r) as [s2 os]. cbn [fst snd]. right. left. exists o1, r0. split; [left; reflexivity|exact Hr].
     + right. right. left. exact Cr.
+Qed.
+
+(* ---------- exactly once ---------- *)
+From Coq Require Import Permutation.
+
+Definition resp_ids (o : list output) : list N := flat_map (fun x => match x with OResp u _ => [u] | _ => [] end) o.
+Definition run_resp_ids (os : list (list output)) : list N := flat_map resp_ids os.
+Fixpoint arrivals (evs : list event) : list N :=
+  match evs with [] => [] | EvHtlc h :: r => hid h :: arrivals r | _ :: r => arrivals r end.
+Definition held_ids (s : sys) : list N := map hid (lis (entry_ (pl s))).
+
+Lemma resp_ids_resps o : resp_ids (resps o) = resp_ids o.
+Proof.
+  unfold resp_ids, resps. induction o as [|x o IH]; cbn [filter flat_map]; [reflexivity|].
+  destruct x; cbn [is_resp flat_map app]; rewrite ?IH; reflexivity.
+Qed.
+
+Lemma resp_ids_answers l r : resp_ids (map (fun h => OResp (hid h) r) l) = map hid l.
+Proof. unfold resp_ids. induction l as [|h l IH]; cbn; [reflexivity|]. rewrite IH. reflexivity. Qed.
+
+(* one step without a crash: the ids answered in it, followed by the ids held after it, are the id that arrived in it followed
+   by the ids held before it *)
+Lemma step_ids c s ev : ev <> EvCrash ->
+  resp_ids (snd (step c s ev)) ++ held_ids (fst (step c s ev)) = arrivals [ev] ++ held_ids s.
+Proof.
+  intros Hnc. pose proof (step_koa c s ev) as Hk. unfold held_ids.
+  destruct ev as [h|sel|cid f|cid sel|pid st|cid|cid o|dt|h|]; try congruence; cbn [arrivals app];
+    try (destruct Hk as [(Hl & Hr)|(en & r & He & He' & Hr)];
+         [rewrite Hl, <- resp_ids_resps, Hr; reflexivity
+         |rewrite He', He, <- resp_ids_resps, Hr, resp_ids_answers; cbn [lis map]; rewrite app_nil_r; reflexivity]).
+  (* EvHtlc *)
+  rewrite Hk. cbn [map]. cbn [step]. destruct (entry_ (pl s)); reflexivity.
+Qed.
+
+Theorem run_ids c : forall evs s, ~ In EvCrash evs ->
+  Permutation (run_resp_ids (snd (run c s evs)) ++ held_ids (fst (run c s evs))) (arrivals evs ++ held_ids s).
+Proof.
+  induction evs as [|ev r IH]; intros s Hnc; cbn [run].
+  - cbn. apply Permutation_refl.
+  - assert (Hne : ev <> EvCrash) by (intros ->; apply Hnc; left; reflexivity).
+    assert (Hnr : ~ In EvCrash r) by (intros H; apply Hnc; right; exact H).
+    pose proof (step_ids c s ev Hne) as Hs. specialize (IH (fst (step c s ev)) Hnr).
+    destruct (step c s ev) as [s1 o1]. cbn [fst snd] in *. destruct (run c s1 r) as [s2 os]. cbn [fst snd] in *.
+    unfold run_resp_ids in *. cbn [flat_map]. rewrite <- app_assoc.
+    eapply Permutation_trans; [apply Permutation_app_head; exact IH|].
+    (* resp_ids o1 ++ arrivals r ++ held s1  ~  arrivals (ev :: r) ++ held s *)
+    eapply Permutation_trans; [apply Permutation_app_swap_app|].
+    rewrite Hs.
+    assert (E : arrivals (ev :: r) = arrivals [ev] ++ arrivals r) by (destruct ev; reflexivity).
+    rewrite E, <- app_assoc. apply Permutation_app_swap_app.
+Qed.
+
+Lemma NoDup_app_l {A} (l l' : list A) : NoDup (l ++ l') -> NoDup l.
+Proof.
+  induction l as [|x l IH]; cbn; intros H; [constructor|]. inversion H as [|? ? Hx Hr]; subst.
+  constructor; [intros Hin; apply Hx; apply in_or_app; left; exact Hin|exact (IH Hr)].
+Qed.
+
+(* nobody is answered twice: with distinct ids, in a history without a crash *)
+Theorem nobody_answered_twice c evs s :
+  ~ In EvCrash evs -> NoDup (arrivals evs ++ held_ids s) -> NoDup (run_resp_ids (snd (run c s evs))).
+Proof.
+  intros Hnc Hnd. pose proof (run_ids c evs s Hnc) as Hp.
+  apply Permutation_sym in Hp. pose proof (Permutation_NoDup Hp Hnd) as H.
+  exact (NoDup_app_l _ _ H).
 Qed.
